@@ -22,6 +22,7 @@
 #if (defined(C20_MODE) && defined(KF_OPEN_C20_thread_selfkey_failure)) || (!defined(C20_MODE) && defined(KF_OPEN_C18_thread_selfkey_failure))
 #define SELFKEY_OPEN 1
 #endif
+static pboolean nd_pbool(_Bool want) { int v = ND_INT(); VASSUME((v != 0) == want); return (pboolean) v; }   /* any truthy / falsy int */
 extern void p_uthread_init(void);
 extern void p_uthread_shutdown(void);
 
@@ -71,7 +72,7 @@ static void script(int k, int from, int f, int init_fail) {
 
   te_next_slot = 1;
   int failed_before_create = FAILED;
-  hnd = p_uthread_create(thr_main, &ran, TRUE, "ab");
+  hnd = p_uthread_create(thr_main, &ran, nd_pbool(1), "ab");
   VASSERT(hnd != NULL || FAILED > failed_before_create, "create fails only when something failed");
   if (hnd != NULL) {
     pint r = p_uthread_join(hnd);
